@@ -303,6 +303,34 @@ func genMain(args []string) {
 		fmt.Fprintln(os.Stderr, "gen:", err)
 		os.Exit(1)
 	}
+	// names the models, pins and the extraction refer to (recorded at pin time): a definition the
+	// translator can no longer find in the sources is emitted with a default value, so that the
+	// development still builds and the broken pin - not a failed build - reports the change
+	expectedPath := ""
+	if *pinDir != "" {
+		expectedPath = filepath.Join(*pinDir, "expected.txt")
+	} else if *out != "" {
+		expectedPath = filepath.Join(*out, "..", "Tie", "expected.txt")
+	}
+	if *pinDir == "" && expectedPath != "" {
+		if b, err := os.ReadFile(expectedPath); err == nil {
+			have := map[string]bool{}
+			for _, d := range defs {
+				have[d.Module+"."+d.Name] = true
+			}
+			for _, line := range strings.Split(strings.TrimSpace(string(b)), "\n") {
+				f := strings.Split(line, "\t")
+				if len(f) != 3 || have[f[0]+"."+f[1]] {
+					continue
+				}
+				val := "[]"
+				if f[2] == "N" {
+					val = "0"
+				}
+				defs = append(defs, genDef{Name: f[1], Module: f[0], Type: f[2], Value: val, Comment: "NOT FOUND in the sources any more (default value)"})
+			}
+		}
+	}
 	mods := map[string]*strings.Builder{}
 	for _, m := range []string{"Patterns", "Lits", "Consts"} {
 		b := &strings.Builder{}
@@ -345,6 +373,11 @@ func genMain(args []string) {
 				_ = os.Remove(p)
 			}
 		}
+		var eb strings.Builder
+		for _, d := range defs {
+			fmt.Fprintf(&eb, "%s\t%s\t%s\n", d.Module, d.Name, d.Type)
+		}
+		_ = writeIfChanged(expectedPath, eb.String())
 	}
 	names := []string{}
 	for _, d := range defs {
